@@ -43,6 +43,7 @@ __CPROVER_ensures(__CPROVER_return_value == (T_USABLE(ENTRY) ? T_VALUE(ENTRY) : 
 #endif
 
 #ifdef U_GET_ENTRY_AS
+typedef size_t DestType;
 #define RTENTRY (*rt_lookup((struct rtcfg *) config, key))
 //@FUNC
 size_t get_entry_as_size_t(const struct rtcfg *config, int key, size_t dflt)
